@@ -1,7 +1,7 @@
 (* C19 - Faucets: never on mainnet, and at most once anywhere.
    Pinned statements only; proofs in STF/Proofs/Faucet.v. *)
 From MelVerif Require Import STF.Model STF.Proofs.Faucet STF.Proofs.HashFacts STF.Proofs.SealCounts STF.Proofs.History
-  STF.Proofs.FaucetHistory STF.Proofs.Witness STF.Proofs.Witness5.
+  STF.Proofs.FaucetHistory STF.Proofs.Witness STF.Proofs.Witness5 STF.Proofs.Witness9.
 Open Scope N_scope.
 
 (* on mainnet an accepted batch contains no faucet other than the grandfathered hash *)
@@ -90,3 +90,21 @@ Example C19_history_witness :
     (exists e, apply_tx_batch w_oracle (fold_left (hstep w_oracle) w_later s1) w_header [w_f1] = Reject e) /\
     (exists s2, apply_tx_batch w_oracle (fold_left (hstep w_oracle) w_later s1) w_header [w_f4] = Ok s2).
 Proof. exact w_faucet_once. Qed.
+
+(* ---- known finding F18: the exception "is_bug_tx t = false" above cannot be dropped.  The FULL statement of the
+   property ("on other networks a given faucet transaction can be accepted at most once") is false of the faithful
+   model for the one grandfathered transaction: it is exempt from the replay marker as well as from the mainnet
+   ban, so the state that accepted it accepts it again - on a custom network and on mainnet.  (Recorded in
+   known_findings.txt, class F18; the implementation does the same: scenario d_grandfathered_faucet_custom.) *)
+Theorem C19_refuted_for_the_grandfathered_transaction :
+  is_bug_tx w_bug = true /\ t_kind w_bug = KFaucet /\
+  exists s1 s2, apply_tx_batch w_oracle w_state w_header [w_bug] = Ok s1 /\
+                apply_tx_batch w_oracle s1 w_header [w_bug] = Ok s2 /\
+                s_coins s1 !! marker_key w_oracle w_bug = None.
+Proof. exact w_bug_replayed. Qed.
+Print Assumptions C19_refuted_for_the_grandfathered_transaction.
+Theorem C19_refuted_on_mainnet :
+  exists s1 s2, apply_tx_batch w_oracle w_mainnet w_header [w_bug] = Ok s1 /\
+                apply_tx_batch w_oracle s1 w_header [w_bug] = Ok s2.
+Proof. exact w_bug_replayed_on_mainnet. Qed.
+Print Assumptions C19_refuted_on_mainnet.
